@@ -5,6 +5,7 @@ import (
 	"go/ast"
 	"go/constant"
 	"go/token"
+	"slices"
 	"sort"
 	"strings"
 
@@ -153,6 +154,7 @@ func checkC09(c *Ctx, r *Report) {
 
 	// ---- C09.e generated identifiers: every use has a declaration with the same spelling
 	checkGeneratedIdentifiers(c, r)
+	checkDeclaredWhereCalled(c, r, "C09.e")
 	checkIterableOnlyInQuery(c, r)
 
 	// ---- C09.g identifiers spelled from annotation values are validated as written
@@ -666,5 +668,111 @@ func checkPackageNameVerbatim(c *Ctx, r *Report, clause string) {
 			viol = fmt.Sprintf("PackageName must be the configured name or a literal default (configured: %v, literal defaults: %d)", hasCfg, nDefault)
 		}
 		r.add(clause, "fieldflow", fi.Key+":PackageName", "PackageName = routesConfig.packageName verbatim, or a literal default that is an identifier", []string{fi.Key}, sites, viol)
+	}
+}
+
+// checkDeclaredWhereCalled: a function the templates declare (`func name(`) inside a
+// handlebars condition exists only in routers rendered with that condition true; every
+// call of it must stand under the same condition, or a configuration exists for which the
+// routes file calls an undeclared function. Conditions are compared as sets of (polarity,
+// block head) pairs with `../` and `@root.` stripped (the heads in question are read from the
+// root context whatever the depth they are spelled at).
+func checkDeclaredWhereCalled(c *Ctx, r *Report, clause string) {
+	normPath := func(s string) string {
+		for strings.HasPrefix(s, "../") {
+			s = s[3:]
+		}
+		return strings.TrimPrefix(s, "@root.")
+	}
+	head := func(b *hast.BlockStatement) string {
+		s := b.Expression.HelperName()
+		if s == "" {
+			s = b.Expression.Canonical()
+		}
+		for _, prm := range b.Expression.Params {
+			if pe, ok := prm.(*hast.PathExpression); ok {
+				s += " " + normPath(pe.Original)
+			} else {
+				s += " " + prm.String()
+			}
+		}
+		return s
+	}
+	for _, en := range c.T.Order {
+		eng := c.T.Engines[en]
+		type occ struct {
+			conds []string
+			site  string
+		}
+		decls := map[string][]occ{}
+		calls := map[string][]occ{}
+		var walk func(t *Tpl, p *hast.Program, conds []string, depth int)
+		walk = func(t *Tpl, p *hast.Program, conds []string, depth int) {
+			if p == nil || depth > 6 {
+				return
+			}
+			for _, st := range p.Body {
+				switch n := st.(type) {
+				case *hast.ContentStatement:
+					toks := goToks(n.Value)
+					for i, tk := range toks {
+						if tk.Tok != token.IDENT || i+1 >= len(toks) || toks[i+1].Tok != token.LPAREN {
+							continue
+						}
+						o := occ{append([]string{}, conds...), tplSite(t, eng, n.Line)}
+						switch {
+						case i > 0 && toks[i-1].Tok == token.FUNC:
+							decls[tk.Lit] = append(decls[tk.Lit], o)
+						case i > 0 && toks[i-1].Tok == token.PERIOD:
+						default:
+							calls[tk.Lit] = append(calls[tk.Lit], o)
+						}
+					}
+				case *hast.PartialStatement:
+					if pt := eng.Partials[partialName(n)]; pt != nil {
+						walk(pt, pt.Prog, conds, depth+1)
+					}
+				case *hast.BlockStatement:
+					h := head(n)
+					walk(t, n.Program, append(append([]string{}, conds...), "+"+h), depth)
+					walk(t, n.Inverse, append(append([]string{}, conds...), "-"+h), depth)
+				}
+			}
+		}
+		walk(eng.Routes, eng.Routes.Prog, nil, 0)
+		viol := ""
+		var sites []string
+		names := make([]string, 0, len(decls))
+		for nm := range decls {
+			names = append(names, nm)
+		}
+		sort.Strings(names)
+		nCalls := 0
+		for _, nm := range names {
+			for _, cl := range calls[nm] {
+				nCalls++
+				sites = append(sites, cl.site)
+				// some declaration must be present whenever the call is: its conditions are among the call's
+				ok := false
+				var lacking string
+				for _, d := range decls[nm] {
+					all := true
+					for _, dc := range d.conds {
+						if !slices.Contains(cl.conds, dc) {
+							all = false
+							lacking = fmt.Sprintf("%s (declared at %s)", dc, d.site)
+						}
+					}
+					ok = ok || all
+				}
+				if !ok && viol == "" {
+					viol = fmt.Sprintf("%s: %s: generated code calls %s(), which the templates declare only under the condition %s; the call stands under %v: for a configuration with the call's conditions true and that one false the routes file does not compile (`undefined: %s`)", en, cl.site, nm, lacking, cl.conds, nm)
+				}
+			}
+		}
+		if len(names) < 5 || nCalls < 5 {
+			viol = fmt.Sprintf("%s: only %d declared functions / %d calls recognised in the templates (floor 5/5)", en, len(names), nCalls)
+		}
+		r.add(clause, "tpl-defuse", en+":declared-where-called", fmt.Sprintf("%s: each of the %d functions the templates declare is declared under no more conditions than any of its %d calls", en, len(names), nCalls), []string{eng.Routes.File}, sites, viol)
 	}
 }
